@@ -69,6 +69,9 @@ impl Ctx {
         if !self.family_selected(name) {
             return;
         }
+        if crate::report::flooded() && !self.replaying() {
+            return;
+        }
         if let Some((_, idx)) = &self.only {
             // Replay: execute exactly this case, twice, and require identical observations.
             let mut a = Report::new();
@@ -127,7 +130,7 @@ impl Ctx {
                     let mut local = Report::new();
                     loop {
                         let lo = next.fetch_add(chunk, Ordering::Relaxed);
-                        if lo >= n {
+                        if lo >= n || crate::report::flooded() {
                             break;
                         }
                         let hi = (lo + chunk).min(n);
@@ -150,11 +153,15 @@ impl Ctx {
         guard::heartbeat_done();
         let m = merged.into_inner().unwrap();
         rep.merge(m);
+        let cut = crate::report::flooded();
+        if cut {
+            rep.note("enumeration_cut_short_after_violation_flood", true);
+        }
         rep.families.push(FamilyInfo {
             name: name.to_string(),
             description: description.to_string(),
             evaluations: n,
-            exhaustive,
+            exhaustive: exhaustive && !cut,
             ..Default::default()
         });
         if self.verbose {
